@@ -257,6 +257,30 @@ def rule_r3(chk, F, rid="C13.R3"):
                 elif cond:
                     r.observe("length guard uses signed condition %s" % cond)
                     ok = len(bail) >= 2
+        # the guard compares the whole length: the function itself states that the length register is Int64
+        # (`assert_eq!(register_type(length), BytecodeType::Int64)`), so the compare's MachineMode must be a 64-bit one
+        hb = c.hir.get(p)
+        states_int64 = hb is not None and any(
+            n[0] == "def" and n[2].endswith("BytecodeType::Int64") for n in hirq.walk(hb["body"]))
+        guard_cmps = [cm for cm in cmps if any(B.dominates(cm.block, b.block) for b in bail)
+                      and all(B.dominates(cm.block, d.block) for d in das)]
+        for cm in guard_cmps:
+            mode = None
+            for a in cm.args:
+                o = cfg.origin(B, a)
+                if o[0] == "agg" and o[1][0] == "adt" and o[1][1].endswith("MachineMode"):
+                    mode = o[1][2]
+            r.instance(p + ":length-guard:compare-width", sample={"compare": last(cm.name), "mode": mode,
+                                                                  "length_is_int64": states_int64})
+            if mode is None or not states_int64:
+                r.violation("ANALYSIS:" + p + ":length-guard:compare-width-unknown",
+                            "cannot determine the width of the length guard's comparison", cm.where())
+            elif mode not in ("Int64", "Ptr", "IntPtr"):
+                r.violation(p + ":length-guard:compares-%s-of-an-Int64-length" % mode,
+                            "the array-length guard compares with MachineMode::%s although the length is an Int64: "
+                            "only the low bits take part, so a length such as 2^61+4 (or -2^32+5) passes the guard and "
+                            "the unchecked size computation wraps to a tiny or negative allocation size" % mode,
+                            cm.where())
         if not ok:
             r.violation(p + ":no-length-range-check",
                         "the array length flows into determine_array_size/allocate without an (unsigned) range check: "
